@@ -259,6 +259,11 @@ func (p *Peer) readOne() (Dgram, error) {
 	return Dgram{B: append([]byte(nil), buf[:n]...), TS: ts}, nil
 }
 
+// RecvFresh is Recv that drops late answers to earlier, abandoned probes and keep-alives. Anything that reads
+// the peer's queue directly after requests went through Request/Probe must use it: a probe that was re-sent on
+// a slow machine is answered twice, and the second answer arrives whenever it likes.
+func (p *Peer) RecvFresh(d time.Duration) (Dgram, error) { return p.recvFresh(d) }
+
 // recvFresh is Recv that drops late answers to earlier, abandoned probes.
 func (p *Peer) recvFresh(d time.Duration) (Dgram, error) {
 	deadline := time.Now().Add(d)
